@@ -349,7 +349,8 @@ class Ctx:
                     raise MachineryError("unparsable harness output line: %r" % line[:300])
                 k = r.get("kind")
                 if k == "disagree":
-                    self.disagree(r["key"], r.get("what", ""), r.get("detail"))
+                    rk = getattr(self, "rekey", None)
+                    self.disagree(rk(r) if rk else r["key"], r.get("what", ""), r.get("detail"))
                 elif k == "summary":
                     for a, b in r.items():
                         if a == "kind":
